@@ -468,3 +468,105 @@ impl Dec for ScriptedSet {
     }
     const MAX_NONE_RUN: usize = usize::MAX;
 }
+
+
+/// A decoder caught between sequences after `n` repetitions of `unit` (which followed the history `pre`).
+pub struct SoakPoint<D> {
+    pub what: &'static str,
+    pub pre: Vec<u8>,
+    pub unit: Vec<u8>,
+    pub n: u64,
+    pub d: D,
+}
+
+/// Checkpointed soaks for the reference-free monitors: one unit (a held key's make code, a rejected byte, an ill-placed pair
+/// of prefixes) repeated on a decoder with a history, and a clone of the decoder taken at every count 2^k + d (k = 8..kmax,
+/// d = -3..3).  Each clone sits between sequences: the unit ends with an event or an error.
+pub fn soak_checkpoints<D: Dec>(kmax: u32) -> Vec<SoakPoint<D>> {
+    let set = D::SET;
+    let r = ref_for(set);
+    let typist = Typist::new(set, &r);
+    let undefined = typist.undefined_codes.iter().copied().find(|c| ![0xE0u8, 0xE1, 0xF0].contains(c)).unwrap_or(0xFF);
+    let mut cps: std::collections::BTreeSet<u64> = std::collections::BTreeSet::new();
+    for k in 8..=kmax {
+        for d in -3i64..=3 {
+            cps.insert(((1i64 << k) + d) as u64);
+        }
+    }
+    let cps: Vec<u64> = cps.into_iter().collect();
+    let first_ext = typist.make.iter().find(|m| m.len() == 2 && m[0] == 0xE0).cloned().unwrap_or_default();
+    let plain_make = typist.make.iter().find(|m| m.len() == 1).cloned().unwrap_or_default();
+    let ext_make = typist.make.iter().rev().find(|m| m.len() == 2 && m[0] == 0xE0).cloned().unwrap_or_default();
+    let jobs: Vec<(&'static str, Vec<u8>, Vec<u8>)> = vec![
+        ("a plain key held after an E0 sequence", first_ext.clone(), plain_make.clone()),
+        ("an E0 key held after a plain sequence", plain_make.clone(), ext_make),
+        ("a rejected byte repeated", first_ext, vec![undefined]),
+        ("an ill-placed prefix pair repeated", plain_make, vec![0xE0, 0xE0]),
+    ];
+    let jobs = std::sync::Arc::new(jobs);
+    let cps = std::sync::Arc::new(cps);
+    let n_jobs = jobs.len();
+    let shards = par_map(n_jobs, move |t| {
+        let (what, pre, unit) = &jobs[t];
+        let mut out: Vec<SoakPoint<D>> = Vec::new();
+        if unit.is_empty() {
+            return out;
+        }
+        // the unit must end between sequences (by the reference's notion of a sequence)
+        let r = ref_for(set);
+        let mut ctx = Ctx2::default();
+        for b in pre.iter().chain(unit.iter()) {
+            let _ = ref_step(set, &r, &mut ctx, *b);
+        }
+        if ctx != Ctx2::default() {
+            return out;
+        }
+        let _ = crate::report::guarded(|| {
+            let mut d = D::fresh();
+            for b in pre.iter() {
+                let _ = d.advance_state(*b);
+            }
+            let total = *cps.last().unwrap();
+            let mut next = 0usize;
+            let mut n = 0u64;
+            while n < total {
+                for b in unit.iter() {
+                    let _ = d.advance_state(*b);
+                }
+                n += 1;
+                if next < cps.len() && n == cps[next] {
+                    next += 1;
+                    out.push(SoakPoint { what, pre: pre.clone(), unit: unit.clone(), n, d: d.clone() });
+                }
+            }
+        });
+        out
+    });
+    shards.into_iter().flatten().collect()
+}
+
+
+/// Run `work(obj, thread_no)` on `n` threads that share `obj` by reference – if and only if the object's type is `Sync`.
+/// (Autoref specialisation: a tree in which a stage has stopped being `Sync` must not stop the harness from building; that
+/// loss is C20's matter.)  `(&Shareable(&obj)).on_threads(n, &work)` gives None when the type is not Sync.
+pub struct Shareable<'a, T>(pub &'a T);
+pub trait SharedIfSync<T, R> {
+    fn on_threads(&self, n: usize, work: &(dyn Fn(&T, usize) -> R + Sync)) -> Option<Vec<R>>;
+}
+impl<'a, T: Sync, R: Send + Default> SharedIfSync<T, R> for Shareable<'a, T> {
+    fn on_threads(&self, n: usize, work: &(dyn Fn(&T, usize) -> R + Sync)) -> Option<Vec<R>> {
+        let obj = self.0;
+        Some(std::thread::scope(|sc| {
+            let hs: Vec<_> = (0..n).map(|t| sc.spawn(move || work(obj, t))).collect();
+            hs.into_iter().map(|h| h.join().unwrap_or_default()).collect()
+        }))
+    }
+}
+pub trait NotShared<T, R> {
+    fn on_threads(&self, n: usize, work: &(dyn Fn(&T, usize) -> R + Sync)) -> Option<Vec<R>>;
+}
+impl<'a, 'b, T, R> NotShared<T, R> for &'b Shareable<'a, T> {
+    fn on_threads(&self, _n: usize, _work: &(dyn Fn(&T, usize) -> R + Sync)) -> Option<Vec<R>> {
+        None
+    }
+}
